@@ -461,8 +461,8 @@ def _run(case):
                     if op.get('reuse') and dead_ids:
                         # Round 5: a NEW object at the address of a dead one (CPython hands a freed block out again):
                         # whatever the setup remembers about the dead object by id() must not leak into this one
-                        import gc
-                        gc.collect()
+                        # (no gc.collect(): Loop trees have no reference cycles - parents are weak references - so a dead
+                        # object is freed at once; a full collection per call made the thorough tier quadratic)
                         junk = []
                         for _ in range(48):
                             cand = _mk_program(dict(pd, _ids=IDS))
